@@ -6,6 +6,7 @@ package main
 
 import (
 	"fmt"
+	"os"
 	"strings"
 	"time"
 
@@ -27,17 +28,18 @@ type seqScenario struct {
 }
 
 type opObs struct {
-	Res       string `json:"res"`       // error kind
-	Installed int    `json:"installed"` // fetch: version index, -1 nothing, -2 not a stored version
-	Damage    string `json:"damage,omitempty"`
-	NOps      int    `json:"nops"`
-	Label     string `json:"label,omitempty"` // model step the fault hit ("" = not mapped)
-	Crashed   bool   `json:"crashed"`
+	Res       string    `json:"res"`       // error kind
+	Installed int       `json:"installed"` // fetch: version index, -1 nothing, -2 not a stored version
+	Damage    string    `json:"damage,omitempty"`
+	NOps      int       `json:"nops"`
+	Label     string    `json:"label,omitempty"` // model step the fault hit ("" = not mapped)
+	Crashed   bool      `json:"crashed"`
 	Remote    remoteObs `json:"remote"`
 	trace     []shim.Op
+	observed  bool
 }
 
-func runSeqOp(w *world, kind string, op opSpec) opObs {
+func runSeqOp(w *world, kind string, op opSpec, observe bool) opObs {
 	c := w.newClient(kind, 2*time.Second, true)
 	c.fault = op.Fault
 	var err error
@@ -53,22 +55,31 @@ func runSeqOp(w *world, kind string, op opSpec) opObs {
 	o := opObs{Res: errKind(err), Installed: -1, NOps: c.n, Crashed: c.crashed.Load(), trace: c.trace}
 	if c.crashed.Load() {
 		o.Res = "crashed"
+	} else if c.panicked {
+		o.Res = "panic"
+	}
+	if w.poisoned {
+		return o
 	}
 	if op.Op == "fetch" {
 		o.Installed, o.Damage = w.installed(destDir)
 	}
-	o.Remote = w.observeRemote()
+	if observe {
+		o.Remote = w.observeRemote()
+		o.observed = true
+	}
 	return o
 }
 
 // seqOracle checks the property on the observations of one sequential scenario.
-//   (1) a Fetch that reports success has installed exactly one version passed to a Store before (complete);
-//   (2) after a Store that reported success, every Fetch that reports success returns that version, and a fault-free
-//       Fetch (after stale-lock cleaning if a client died meanwhile) does report success — until the next Store.
+//
+//	(1) a Fetch that reports success has installed exactly one version passed to a Store before (complete);
+//	(2) after a Store that reported success, every Fetch that reports success returns that version, and a fault-free
+//	    Fetch (after stale-lock cleaning if a client died meanwhile) does report success — until the next Store.
 func seqOracle(r *h.Run, sc seqScenario, obs []opObs) {
 	stored := map[int]bool{}
-	visible := -1     // version of the last Store that reported success, -1 if the last Store failed / none yet
-	dirty := false    // a client died since (mutable: its lock may be left behind until CleanEntry)
+	visible := -1  // version of the last Store that reported success, -1 if the last Store failed / none yet
+	dirty := false // a client died since (mutable: its lock may be left behind until CleanEntry)
 	for i, op := range sc.Ops {
 		o := obs[i]
 		switch op.Op {
@@ -171,10 +182,32 @@ func runSeq(r *h.Run, sc seqScenario, emit bool) []opObs {
 	w := newWorld(sc.Versions)
 	obs := make([]opObs, len(sc.Ops))
 	for i, op := range sc.Ops {
-		obs[i] = runSeqOp(w, sc.Kind, op)
+		obs[i] = runSeqOp(w, sc.Kind, op, op.Fault != nil || i == len(sc.Ops)-1 || os.Getenv("C16_DEBUG") != "")
 		obs[i].Label = label(sc.Kind, op, obs[i].trace)
+		if w.poisoned { // the back end panicked inside the library call: the scenario ends here
+			r.Count("scenario-ended-by-backend-panic")
+			sc.Ops = sc.Ops[:i+1]
+			obs = obs[:i+1]
+			emit = false
+			break
+		}
 	}
 	seqOracle(r, sc, obs)
+	if os.Getenv("C16_DEBUG") != "" {
+		for i, op := range sc.Ops {
+			hit := ""
+			if op.Fault != nil && op.Fault.K < len(obs[i].trace) && op.Fault.Kind != "errpath" && op.Fault.LockOp == "" {
+				t := obs[i].trace[op.Fault.K]
+				hit = fmt.Sprintf(" HIT %s %s %s [%s]", t.Name, t.Path, t.Path2, obs[i].Label)
+				if os.Getenv("C16_DEBUG") == "2" {
+					for j := max(0, op.Fault.K-6); j < min(len(obs[i].trace), op.Fault.K+4); j++ {
+						hit += fmt.Sprintf("\n      %d %s %s", j, obs[i].trace[j].Name, obs[i].trace[j].Path)
+					}
+				}
+			}
+			fmt.Fprintf(os.Stderr, "%d %s v%d fault=%+v -> %s installed=%d %s remote=%+v%s\n", i, op.Op, op.Ver, op.Fault, obs[i].Res, obs[i].Installed, obs[i].Damage, obs[i].Remote, hit)
+		}
+	}
 	r.Count("seq:" + sc.Kind)
 	for i, op := range sc.Ops {
 		if op.Fault != nil {
